@@ -461,7 +461,9 @@ func (svg *SVGImage) applyClipPath(dst backend.Canvas, clipPath *clipPath, node 
 	dst.State().Clip(false)
 	newCtm := dst.State().GetTransform()
 	if err := newCtm.Invert(); err == nil {
-		dst.State().Transform(matrix.Mul(oldCtm, newCtm))
+		// Transform applies its argument before the current matrix :
+		// current * (current^-1 * old) = old
+		dst.State().Transform(matrix.Mul(newCtm, oldCtm))
 	}
 }
 
